@@ -179,7 +179,7 @@ func c01Docs(tier string) []c01Doc {
 func c01PositionSpace(tier string) *core.Space {
 	docs := c01Docs(tier)
 	return &core.Space{
-		Name: "server-start-then-every-request-at-every-position", N: int64(len(docs)), Chunk: 20, RecycleEvery: 20, PerCaseTimeoutS: 60, ChunkTimeoutS: 600,
+		Name: "server-start-then-every-request-at-every-position", N: int64(len(docs)), Chunk: 20, RecycleEvery: 20, PerCaseTimeoutS: 60, ChunkTimeoutS: 240,
 		Describe: func(i int64) interface{} { return map[string]interface{}{"m.lua": docs[i].text, "kind": docs[i].desc} },
 		Run: func(i int64, r *core.Result) {
 			d := docs[i]
@@ -433,7 +433,7 @@ func c01HistorySpace(depth int) *core.Space {
 		return ix
 	}
 	return &core.Space{
-		Name: name, N: n, Chunk: 500, RecycleEvery: 20, PerCaseTimeoutS: 60, ChunkTimeoutS: 900,
+		Name: name, N: n, Chunk: 250, RecycleEvery: 20, PerCaseTimeoutS: 30, ChunkTimeoutS: 150,
 		Describe: func(i int64) interface{} {
 			var h []string
 			for _, k := range decode(i) {
